@@ -146,4 +146,14 @@ PROPS = {
         quick=dict(shards=16, checks=250, extra=["TestQuota", "TestFixtures"], timeout=900),
         thorough=dict(shards=16, checks=2000, extra=["TestQuota", "TestFixtures", dict(run="TestGrid", shards=16)], timeout=3400),
     ),
+    "C11": dict(
+        pkg="c11",
+        technique="property-based testing (rapid) with a per-sample error-bound oracle computed from the DQT tables parsed from the emitted stream",
+        level_text="Exploration: seeded rapid generators over images (8-bit 1/3 components, 12-bit greyscale; noise, Nyquist checkerboards, black/white extremes) x quality 1..100 x Baseline/Extended; a deterministic sweep over every size 1..33 x 1..33; the bound is the statement's (C(u)C(v)-weighted eighth of the table sum, through |YCbCr->RGB|, plus 2 / 5).",
+        level_note="DQT, SOF and sampling factors are read by the independent JPEG walker; trusts the Go runtime.",
+        rule=("rapid-generated (image, quality, codec). Non-trivial: image not constant, entropy-coded data longer than 2 bytes per block (AC coefficients present), and >= 2 blocks or a partial block. Distinct = hash of the case."),
+        assumptions=COMMON_ASSUME,
+        quick=dict(shards=16, checks=400, extra=[dict(run="TestSizes", shards=4)], timeout=900),
+        thorough=dict(shards=16, checks=8000, extra=[dict(run="TestSizes", shards=16)], timeout=3400),
+    ),
 }
